@@ -10,9 +10,17 @@ pub struct TokenWorld {
     pub allow: [[i128; NADDR]; NADDR],
     pub decimals: u32,
     pub n_transfers: u32,
+    /// expiration ledger of each allowance (SEP-41: an allowance is worth 0 once `seq > allow_until`);
+    /// default `u32::MAX` = never expires, so harnesses that do not care need not set it
+    pub allow_until: [[u32; NADDR]; NADDR],
 }
-static mut TOKEN: TokenWorld =
-    TokenWorld { bal: [0; NADDR], allow: [[0; NADDR]; NADDR], decimals: 7, n_transfers: 0 };
+static mut TOKEN: TokenWorld = TokenWorld {
+    bal: [0; NADDR],
+    allow: [[0; NADDR]; NADDR],
+    decimals: 7,
+    n_transfers: 0,
+    allow_until: [[u32::MAX; NADDR]; NADDR],
+};
 pub fn token_world() -> &'static mut TokenWorld {
     unsafe { &mut TOKEN }
 }
@@ -45,15 +53,17 @@ fn add_balance(a: &Address, d: i128) {
         i += 1;
     }
 }
+/// what `allowance(o, s)` is worth at the current ledger (0 once expired)
 pub fn tok_allowance(o: &Address, s: &Address) -> i128 {
     let t = token_world();
+    let seq = model::world().seq;
     let mut r = 0;
     let mut i = 0;
     while i < NADDR {
         let mut j = 0;
         while j < NADDR {
             if o.id == i as u32 && s.id == j as u32 {
-                r = t.allow[i][j];
+                r = if t.allow_until[i][j] >= seq { t.allow[i][j] } else { 0 };
             }
             j += 1;
         }
@@ -61,7 +71,25 @@ pub fn tok_allowance(o: &Address, s: &Address) -> i128 {
     }
     r
 }
-fn set_allowance(o: &Address, s: &Address, v: i128) {
+/// stored expiration ledger of the allowance (o, s)
+pub fn tok_allowance_until(o: &Address, s: &Address) -> u32 {
+    let t = token_world();
+    let mut r = 0;
+    let mut i = 0;
+    while i < NADDR {
+        let mut j = 0;
+        while j < NADDR {
+            if o.id == i as u32 && s.id == j as u32 {
+                r = t.allow_until[i][j];
+            }
+            j += 1;
+        }
+        i += 1;
+    }
+    r
+}
+/// `until == None`: keep the stored expiration (spending)
+fn set_allowance(o: &Address, s: &Address, v: i128, until: Option<u32>) {
     let t = token_world();
     let mut i = 0;
     while i < NADDR {
@@ -69,6 +97,9 @@ fn set_allowance(o: &Address, s: &Address, v: i128) {
         while j < NADDR {
             if o.id == i as u32 && s.id == j as u32 {
                 t.allow[i][j] = v;
+                if let Some(u) = until {
+                    t.allow_until[i][j] = u;
+                }
             }
             j += 1;
         }
@@ -133,7 +164,9 @@ impl<'a> TokenClient<'a> {
         if al < *amount {
             model::trap(0xffff_0023)
         }
-        set_allowance(from, spender, al - *amount);
+        if *amount > 0 {
+            set_allowance(from, spender, al - *amount, None);
+        }
         add_balance(from, -*amount);
         add_balance(to, *amount);
         token_world().n_transfers += 1;
@@ -152,7 +185,12 @@ impl<'a> TokenClient<'a> {
         if *from != caller && !model::is_authorized(from) {
             model::trap_auth()
         }
-        set_allowance(from, spender, *amount);
+        // SEP-41: the expiration "cannot be less than the current ledger number unless the amount is
+        // being set to 0"
+        if *amount > 0 && *live_until < model::world().seq {
+            model::trap(0xffff_0024)
+        }
+        set_allowance(from, spender, *amount, Some(*live_until));
         let mut a = model::ArgBuf::new();
         a.push(from);
         a.push(spender);
